@@ -95,8 +95,9 @@ var expectedRefactorAlarms = map[string]string{
 	// an anchor function is inlined into its callers and deleted: the rules that speak about it cannot be decided
 	"U04-1": "inline of (*unorderedTxs).endTx", "U05-1": "inline of (*unorderedTxs).breakAll", "U06-1": "inline of applySeqNoAndEnqueue",
 	"U08-1": "inline of fileSystem.file/spoolFile", "U09-1": "inline of clearSignalChan",
-	// a switch replaced by a table lookup: exhaustiveness and guards are decided on comparisons, not on table contents
-	"U03-5": "forbidden packet types looked up in an array", "U07-5": "identifier space looked up in a map",
+	// a switch replaced by a lookup in a map of pointers to the destination lists: the list classes are told apart by the guards of their appends
+	// (the array of errors of U03-5 is read from its initialiser since the fifth round)
+	"U07-5": "identifier space looked up in a map",
 	// a known function changes its signature (parameters bundled in a new struct)
 	"U07-4": "cleanSequence takes a struct",
 }
